@@ -255,7 +255,8 @@ class Engine:
             else:
                 unlisted.append((v, sc))
         if os.environ.get("VERIF_DUMP"):
-            json.dump([{"v": {k: x for k, x in v.items() if k != "scenario"}, "sc": sc} for v, sc in unlisted], open(os.environ["VERIF_DUMP"], "w"))
+            json.dump([{"v": {k: x for k, x in v.items() if k != "scenario"}, "sc": sc} for v, sc in unlisted]
+                      + [{"v": v, "sc": self.scen_by_id.get(v["id"]), "other": True} for v in self.viol if v["property"] != self.pid], open(os.environ["VERIF_DUMP"], "w"))
         for kid, (k, n) in known_hits.items():
             print("KNOWN-FINDING: property=%s %s [%s; %d scenario(s) re-observed]" % (self.pid, k["what"], kid, n))
         rc = 0
